@@ -71,7 +71,7 @@ theorem rawEv_append (o : Int) (a b : List P) : rawEv o (a ++ b) = rawEv o a ++ 
     simp only [List.cons_append, rawEv, P.sizes, ih, List.append_assoc, e]
 
 theorem evFwd_st_simple (p : Int) (c : Node) (h : simpleCode c = true) (es : List Ev) : evFwd (.st (.stmt p c) :: es) = evFwd es := by
-  obtain ⟨h1, h2, _, _⟩ := simpleCode_spec h
+  obtain ⟨h1, h2, _, _, _⟩ := simpleCode_spec h
   cases c <;> first | (exact absurd rfl h1) | (exact absurd rfl h2) | rfl
 
 /-- straight-line pieces contribute no jump and no back jump -/
